@@ -85,6 +85,15 @@ PROPS["C04"] = {
     "assumptions": ["writes are observed through a ghost log, not through files"],
 }
 
+PROPS["C15"] = {
+    "level": "other",
+    "text": "The three demultiplexers are proved to write every read (pair) exactly once to the writer selected by the name of the "
+            "last match on R1 (the pair of names), to the untrimmed writer, or to count it as discarded; demultiplex-mode detection is "
+            "proved as a truth table.  File creation for every name is covered by a bounded native stand-in.",
+    "note": "Trusted: dict lookups as uninterpreted functions of the key; adapter names of matches are among the configured names.",
+    "assumptions": ["file creation (_open_writers) is exercised natively, not proved"],
+}
+
 _PENDING = "check not built yet in this revision (see DESIGN.md section 7 for the build order)"
 NOT_APPLICABLE = {
     "C12": "quantifies over fault sequences, crash points and schedules and contains a liveness clause; malformed-input detection "
